@@ -31,4 +31,20 @@ func (*JSONHybridHandler).WithAttrs
   ensures attrs_appended: len(as(res, "*JSONHybridHandler").textAttrs) == len(h.textAttrs) + len(attrs)
   ensures parent_unchanged: h.textAttrs == old(h.textAttrs)
 
+
+// The pooled pair: the text handler writes into exactly the buffer that
+// Handle reads the line from.  The constructor establishes the link and
+// reset keeps both objects (it only empties the buffer).
+spec fn linked(h *bufferedTextHandler) bool =
+  h != nil && h.buffer != nil && h.handler != nil && textSinkBuf(h.handler) == h.buffer
+  inline
+
+func newBufferedTextHandler
+  requires l >= 0
+  ensures pair_linked: linked(h) && fresh(h)
+
+func (*bufferedTextHandler).reset
+  requires linked(h)
+  modifies deref(h.buffer)
+  ensures same_pair: h.buffer == old(h.buffer) && h.handler == old(h.handler) && linked(h)
 @*/
